@@ -242,3 +242,10 @@ add("wr_add_dfcc", ["C08", "C10", "C09"], ["tu/writer_add_dfcc.c"], "h_writer_ad
     unwind=40, timeout=600, strength="U", functions=["mtbl_writer_add"], slice=1,
     assumptions=["callees replaced by capture contracts: bytes_compare (own proof: group bytes_compare), size estimate, separator, flush, ubuf_reset/append, block_builder_add (checked in wr_add_step / bb_* / vec_step)",
                  "keys and values of any length below 2^60; counters below 2^62 (no wrap)"])
+RD_DFCC_REPL = ["get_block/get_block__spec", "mtbl_varint_decode64/mtbl_varint_decode64__spec", "block_iter_get/block_iter_get__spec", "block_iter_next/block_iter_next__spec",
+                "block_iter_seek/block_iter_seek__spec", "block_iter_seek_to_first/block_iter_seek_to_first__spec", "block_iter_init/block_iter_init__spec",
+                "block_destroy/block_destroy__spec", "block_iter_destroy/block_iter_destroy__spec", "bytes_compare/bytes_compare__any", "memcmp/memcmp__any"]
+for fn in ("next", "seek"):
+    add(f"rd_{fn}_dfcc", ["C03"], ["tu/reader_dfcc.c"], f"h_reader_{fn}_dfcc", mode="dfcc", enforce=f"reader_iter_{fn}/reader_iter_{fn}__spec", replace=RD_DFCC_REPL,
+        unwind=12, timeout=600, strength="U", functions=[f"reader_iter_{fn}", "get_block_at_index", "needs_index_seek"],
+        assumptions=["mtbl/block.c functions and get_block replaced by contracts; get_block's contract records (block, offset) in ghosts; any table, any contents, any iterator kind"])
